@@ -68,6 +68,18 @@ class ZID:
 class ZRO:
   def __radd__(self, o): return 0
   def __rsub__(self, o): return 0
+class ZSB:
+  def __init__(self):
+    self.i = 0
+class ZSC(ZSB):
+  def __init__(self):
+    super().__init__()
+    self.f = zf_
+class ZSD(ZSC):
+  c = 0
+  def __init__(self, k=0):
+    super().__init__()
+    self.s = k
 '''
 
 # (label, expression, is a builtin value, has a dynamic attribute fallback)
@@ -80,6 +92,8 @@ ZOO_VALUES = [
     ("ZL", "ZL([1])", False, False), ("ZLO", "ZLO([1])", False, False),
     ("ZD", "ZD({1: 2})", False, False), ("ZDO", "ZDO({1: 2})", False, False),
     ("ZIC", "ZIC()", False, False), ("ZID", "ZID()", False, False), ("ZRO", "ZRO()", False, False),
+    # instances whose __init__ chains through super().__init__() (own and inherited)
+    ("ZSC", "ZSC()", False, False), ("ZSD", "ZSD()", False, False),
     ("bytearray", 'bytearray(b"a")', True, False), ("range", "range(2)", True, False),
 ]
 PARTNERS = [("int", "1", True), ("str", '"a"', True), ("list", "[1]", True), ("NoneType", "None", True)]
